@@ -4,6 +4,7 @@ Theorems about the RGA model (list.go / ordered.go); document arrays use the sam
 (Model/Doc calls the same `insertAfterId`), their lifting to whole documents is not yet proved.
 -/
 import Orda.Proofs.Rga
+import Orda.Proofs.RgaFull
 namespace Orda.Props.C04
 open Orda
 
@@ -61,5 +62,22 @@ theorem deleted_stays_deleted (s s' : Rga) (tg : List Ts) (vs : List JVal) (ts :
   ⟨deleteRemote_keeps_tomb s tg ts x h, fun hu => updateRemote_keeps_tomb s s' tg vs ts x hu h⟩
 theorem delete_wins (s : Rga) (tg : List Ts) (ts : Ts) (x : Ts) (hx : x ∈ tg) (hn : s.ids.Nodup) (hin : x ∈ s.ids) :
     ∃ n ∈ (s.deleteRemote tg ts).nodes, n.o = x ∧ n.v = none := deleteRemote_kills s tg ts x hx hn hin
+
+/-- mixed histories: in ANY history of inserts, updates and deletes (no hypothesis at all) the identity
+    sequence is the one produced by the inserts alone — updates and deletes neither remove, duplicate nor
+    move an element; so `same_order_everywhere`, `no_duplicates` and `prefix_order_agrees` carry over to
+    every mixed history -/
+theorem mixed_history_order_is_insert_order (ops : List LOp) :
+    (Rga.empty.applyAllL ops).ids = (Rga.empty.applyAllIns (RF.insOps ops)).ids := RF.applyAllL_ids ops
+
+/-- mixed histories, same order on every replica: two causal orders of the same operations give the same
+    sequence (and the same values/tombstones) -/
+theorem mixed_history_same_order (ops ops' : List LOp) (hp : ops.Perm ops') (hc : LCausal ops) (hc' : LCausal ops') :
+    (Rga.empty.applyAllL ops).nodes = (Rga.empty.applyAllL ops').nodes := rga_full_converge ops ops' hp hc hc'
+
+/-- never visible after its delete was received, whatever else arrives: tombstone ⇔ a delete of the history targets it -/
+theorem deleted_iff_delete_received (ops : List LOp) (hc : LCausal ops) (n : RNode)
+    (hn : n ∈ (Rga.empty.applyAllL ops).nodes) :
+    n.v = none ↔ ∃ tgs ts, LOp.del tgs ts ∈ ops ∧ n.o ∈ tgs := rga_tombstone_iff ops hc n hn
 
 end Orda.Props.C04
